@@ -197,3 +197,13 @@ func ExpectProbes(id string, names ...string) { expectedProbes[id] = append(expe
 
 // ExpectedProbes returns the declared probes.
 func ExpectedProbes(id string) []string { return expectedProbes[id] }
+
+var replaying bool
+
+// SetReplaying marks the process as re-executing a recorded run (replay, shrink candidate in a child).
+func SetReplaying(b bool) { replaying = b }
+
+// Replaying reports whether a recorded run is being re-executed. Only used where a run samples a
+// source of nondeterminism the simulator does not control (Go's map iteration order in C16): a
+// replay then samples more often.
+func Replaying() bool { return replaying }
